@@ -38,6 +38,7 @@ pub const V8_UNEXPECTED_DROP: u8 = 8;
 pub const V9_ALIAS: u8 = 9;
 pub const V10_UNEXPECTED_PANIC: u8 = 10;
 pub const V11_ABNORMAL_TERMINATION: u8 = 11;
+pub const V12_MIRI_UB: u8 = 12;
 
 pub fn class_name(c: u8) -> &'static str {
     match c {
@@ -52,6 +53,7 @@ pub fn class_name(c: u8) -> &'static str {
         9 => "V9-alias",
         10 => "V10-unexpected-panic",
         11 => "V11-abnormal-termination",
+        12 => "V12-miri-undefined-behaviour",
         _ => "V?-unknown",
     }
 }
